@@ -113,16 +113,13 @@ def rand_history(rng, n):
     return ops
 
 
-def main(tier=None):
-    c = Check("C04", ["Wasp.Properties.C04", "Wasp.Properties.Facts.C04"], tier)
-    c.build()
+def add_queue_suites(c, samples, exhaustive_n, n_random):
     rng = c.rng
-    samples = []
     # exhaustive short histories over 2 sessions x 2 ids x 3 deadlines
     steps = [f"ins {p} publish 1 {m} {d}" for p in PFX for m in (1, 2) for d in (3000, 3400, 4600)][:8]
     steps += [f"ack {p} {k} {m}" for p in ("s",) for k in ("puback", "pubcomp") for m in (1, 2)]
     steps += [f"exp {t}" for t in (2999, 3001, 4001, 5001)]
-    N = 3 if c.tier == "quick" else 4
+    N = exhaustive_n
     ops, cases = [], 0
     for n in range(1, N + 1):
         for seq in itertools.product(steps, repeat=n):
@@ -131,13 +128,20 @@ def main(tier=None):
     c.run_suite(Suite(f"ackq-exhaustive-le{N}", "ackq", ops, monitor, {"cases": cases, "nontrivial": cases}, exhaustive=True))
     samples.append({"suite": f"ackq-exhaustive-le{N}", "ops": ops[-7:]})
     ops, cases = [], 0
-    for _ in range(2000 if c.tier == "quick" else 40000):
+    for _ in range(n_random):
         ops += rand_history(rng, rng.choice([6, 12, 25, 60]))
         cases += 1
     c.run_suite(Suite("ackq-random-collisions", "ackq", ops, monitor, {"cases": cases, "nontrivial": cases}))
     samples.append({"suite": "ackq-random-collisions", "ops": ops[:14]})
+
+
+def main(tier=None):
+    c = Check("C04", ["Wasp.Properties.C04", "Wasp.Properties.C04Lit", "Wasp.Properties.Facts.C04"], tier)
+    c.build()
+    samples = []
+    add_queue_suites(c, samples, 3 if c.tier == "quick" else 4, 2000 if c.tier == "quick" else 40000)
     c.assumptions += ["gotomic.Hash behaves as a map with atomic put-if-missing/delete", "time.Time.Round(time.Second) modelled on millisecond integers",
                       "concurrent register/acknowledge/sweep is C20's half of the quantifier"]
     return c.finish(samples=samples,
-                    rule="case = one history from an empty queue ending with two sweeps; collision-biased: 2 sessions x 2-4 ids, deadlines equal, "
+                    rule="case = one history from an empty queue ending with two sweeps; collision-biased: 2 sessions x 2 ids, deadlines equal, "
                          "in the same second, around a rounding boundary, past and future; all contain at least one registration")
